@@ -6,9 +6,11 @@
    Each step record carries the arguments, the outcome class and the abstract
    post-state (committed samples per channel, domains with adjacent ones merged). *)
 EXTENDS CesiumStore, Json, SequencesExt
-CONSTANTS Depth
-VARIABLE hist
-gvars == <<vars, hist>>
+CONSTANTS Depth,
+          DeletesOn   \* FALSE: write-only scripts (C01); TRUE: deletes and GC interleaved (C04)
+VARIABLES hist,
+          unsure   \* [Chan -> SUBSET Time]: points whose domain coverage the model does not pin
+gvars == <<vars, hist, unsure>>
 
 RECURSIVE MergeAdj(_)
 MergeAdj(ds) == IF \E d1, d2 \in ds : d1[2] = d2[1]
@@ -16,37 +18,59 @@ MergeAdj(ds) == IF \E d1, d2 \in ds : d1[2] = d2[1]
                      IN MergeAdj((ds \ {p[1], p[2]}) \cup {<<p[1][1], p[2][2]>>})
                 ELSE ds
 St == [cm |-> [c \in Chan |-> [t \in Even |-> committed'[c][t]]],
-       dm |-> [c \in Chan |-> MergeAdj(domains'[c])]]
+       dm |-> [c \in Chan |-> MergeAdj(domains'[c])],
+       un |-> unsure']
+
+\* ---- coverage uncertainty. How domain.DB.Delete trims the pieces it keeps depends on
+\* byte-level coincidences (validateDelete) the model does not reproduce; reads never
+\* depend on it, but the outcome of a later open / index-delete guard can. Points whose
+\* coverage is not certain after a delete are remembered and the generator avoids
+\* operations whose outcome depends on them (filter inside Next).
+Rng(x, y) == {z \in Time : x <= z /\ z <= y}
+UnsureAfterDelete(c, a, b) ==
+  LET hit == {d \in domains[c] : Overlap(d, a, b)}
+      S(d) == {t \in Samples(c) : d[1] <= t /\ t < d[2]}
+      L(d) == {t \in S(d) : t < a}
+      M(d) == {t \in S(d) : a <= t /\ t < b}
+      R(d) == {t \in S(d) : t >= b}
+      sure(d) == (IF L(d) # {} THEN Rng(d[1], Max(L(d))) ELSE {})
+                 \cup (IF R(d) # {} THEN Rng(Min(R(d)), d[2] - 1) ELSE {})
+                 \cup (IF M(d) # {} THEN Rng(Min(M(d)), Max(M(d))) ELSE {})
+  IN unsure[c] \cup UNION {Rng(d[1], d[2] - 1) \ sure(d) : d \in hit}
+UnsureDelete(cs, a, b) == IF res' = "ok" /\ a < b
+                          THEN [c \in Chan |-> IF c \in cs THEN UnsureAfterDelete(c, a, b) ELSE unsure[c]]
+                          ELSE unsure
+\* a commit makes the writer's whole range certainly covered
+UnsureCommit(w) == [c \in Chan |-> IF c \in wr[w].chans /\ wr'[w].ins
+                                    THEN unsure[c] \ Rng(wr[w].start, wr'[w].hwm) ELSE unsure[c]]
+SureOpen(cs, s) == \A c \in cs : s \notin unsure[c]
+SureWrite(w, ts) == \A c \in wr[w].chans \cup (IF "I" \in wr[w].chans THEN {} ELSE {"I"}) :
+                       unsure[c] \cap Rng(wr[w].start, Max(ts) + 1) = {}
+\* Deletes the generator avoids (their OUTCOME class is not stated by any property and
+\* depends on trimming details): an index delete whose guard would look at coverage the
+\* model is unsure of; a bound that falls in the sample-free tail of a domain (the code
+\* answers with a "discontinuous" error).
+SureDelete(cs, a, b) ==
+  /\ \A c \in cs : \A d \in domains[c] :
+        (d[1] <= b /\ b < d[2] /\ a < b) => IdxIn(b, d[2]) # {}
+  /\ \/ "I" \notin cs
+     \/ MustRefuse(cs, a, b)
+     \/ \A c \in DataChan :
+          /\ unsure[c] \cap Rng(a, b - 1) = {}
+          /\ IF c \in cs
+             THEN \A d \in domains[c] : Overlap(d, a, b) =>
+                     \E t \in Samples(c) : a <= t /\ t < b /\ Inside(d, t)
+             ELSE \A d \in domains[c] : ~Overlap(d, a, b)
 Rec(a, args) == [a |-> a, args |-> args, res |-> res', st |-> St]
 Push(a, args) == hist' = Append(hist, Rec(a, args))
+GOpen(w, cs, s, au) == SureOpen(cs, s) /\ OpenWriter(w, cs, s, au) /\ UNCHANGED unsure /\ Push("open", [w |-> w, chans |-> cs, start |-> s, auto |-> au])
+GWrite(w, ts) == WriteGuard(w, ts) /\ SureWrite(w, ts) /\ Write(w, ts) /\ unsure' = UnsureCommit(w) /\ Push("write", [w |-> w, times |-> ts, id |-> nextId, dataonly |-> "I" \notin wr[w].chans])
+GCommit(w) == Commit(w) /\ unsure' = UnsureCommit(w) /\ Push("commit", [w |-> w])
+GClose(w) == CloseWriter(w) /\ UNCHANGED unsure /\ Push("close", [w |-> w])
+GReopen == Reopen /\ UNCHANGED unsure /\ Push("reopen", [x |-> 0])
+GGC == GC /\ UNCHANGED unsure /\ Push("gc", [x |-> 0])
+GDelete(cs, a, b) == SureDelete(cs, a, b) /\ Delete(cs, a, b) /\ unsure' = UnsureDelete(cs, a, b) /\ Push("delete", [chans |-> cs, a |-> a, b |-> b, must |-> MustRefuse(cs, a, b)])
 
-GOpen(w, cs, s, au) == OpenWriter(w, cs, s, au) /\ Push("open", [w |-> w, chans |-> cs, start |-> s, auto |-> au])
-GWrite(w, ts) == Write(w, ts) /\ Push("write", [w |-> w, times |-> ts, id |-> nextId, dataonly |-> "I" \notin wr[w].chans])
-GCommit(w) == Commit(w) /\ Push("commit", [w |-> w])
-GClose(w) == CloseWriter(w) /\ Push("close", [w |-> w])
-GReopen == Reopen /\ Push("reopen", [x |-> 0])
-GGC == GC /\ Push("gc", [x |-> 0])
-GDelete(cs, a, b) == Delete(cs, a, b) /\ Push("delete", [chans |-> cs, a |-> a, b |-> b, must |-> MustRefuse(cs, a, b)])
-
-GNextBFS == /\ Len(hist) < Depth
-            /\ \/ \E w \in Writers, cs \in ChanSets, s \in Time, au \in BOOLEAN : GOpen(w, cs, s, au)
-               \/ \E w \in Writers, ts \in SUBSET Even : GWrite(w, ts)
-               \/ \E w \in Writers : GCommit(w) \/ GClose(w)
-               \/ GReopen \/ GGC
-               \/ \E cs \in DeleteSets, a, b \in Time : GDelete(cs, a, b)
-GInit == Init /\ hist = <<>>
-GSpecBFS == GInit /\ [][GNextBFS]_gvars
-
-\* ---- simulation generator: a kind and three selectors are chosen; every (kind, selectors)
-\* combination is one successor, so kinds are weighted by construction, not by how many
-\* argument values they quantify over.
-Nth(S, i) == SetToSeq(S)[(i % Cardinality(S)) + 1]
-OpenW == {w \in Writers : wr[w].open}
-ClosedW == Writers \ OpenW
-LegalWrites(w) == {ts \in SUBSET Even : ts # {} /\ Cardinality(ts) <= MaxLen /\ WriteGuard(w, ts)}
-Sel == 0..3
-NT == Cardinality(Time)
-GEnd == /\ Len(hist) = Depth /\ hist' = Append(hist, [a |-> "end"]) /\ UNCHANGED vars
 \* usefulness filters (inside Next): keep random walks on scripts that move data
 FirstEven(s) == IF s % 2 = 0 THEN s ELSE s + 1
 UsefulOpen(cs, s) ==
@@ -56,6 +80,32 @@ UsefulOpen(cs, s) ==
      ELSE s \in Samples("I") /\ \A c \in cs : ~Has(c, s) /\ \A d \in domains[c] : ~Overlap(d, s, s + 1)
 LastIs(a) == Len(hist) > 0 /\ hist[Len(hist)].a = a
 AnyData == \E c \in Chan : Samples(c) # {}
+\* bounded-exhaustive generator: every behaviour up to Depth that passes the same
+\* usefulness filters as the simulation generator
+GNextBFS == /\ Len(hist) < Depth
+            /\ \/ \E w \in Writers, cs \in ChanSets, s \in Time, au \in BOOLEAN :
+                    ~wr[w].open /\ UsefulOpen(cs, s) /\ GOpen(w, cs, s, au)
+               \/ \E w \in Writers, ts \in SUBSET Even : GWrite(w, ts)
+               \/ \E w \in Writers : wr[w].open /\ wr[w].buf # {} /\ GCommit(w)
+               \/ \E w \in Writers : wr[w].open /\ wr[w].n > 0 /\ GClose(w)
+               \/ (AnyData /\ ~LastIs("reopen") /\ GReopen)
+               \/ (DeletesOn /\ LastIs("delete") /\ GGC)
+               \/ (DeletesOn /\ \E cs \in DeleteSets, a, b \in Time :
+                      /\ a < b /\ \E c \in Chan : \E t \in Samples(c) : a <= t /\ t < b
+                      /\ GDelete(cs, a, b))
+GInit == Init /\ hist = <<>> /\ unsure = [c \in Chan |-> {}]
+GSpecBFS == GInit /\ [][GNextBFS]_gvars
+
+\* ---- simulation generator: a kind and three selectors are chosen; every (kind, selectors)
+\* combination is one successor, so kinds are weighted by construction, not by how many
+\* argument values they quantify over.
+Nth(S, i) == SetToSeq(S)[(i % Cardinality(S)) + 1]
+OpenW == {w \in Writers : wr[w].open}
+ClosedW == Writers \ OpenW
+LegalWrites(w) == {ts \in SUBSET Even : ts # {} /\ Cardinality(ts) <= MaxLen /\ WriteGuard(w, ts) /\ SureWrite(w, ts)}
+Sel == 0..3
+NT == Cardinality(Time)
+GEnd == /\ Len(hist) = Depth /\ hist' = Append(hist, [a |-> "end"]) /\ UNCHANGED <<vars, unsure>>
 GNextSim == GEnd \/
   /\ Len(hist) < Depth
   /\ \E k \in 1..10, i \in Sel, j \in Sel, m \in Sel :
@@ -69,8 +119,8 @@ GNextSim == GEnd \/
        \/ /\ k = 7 /\ OpenW # {} /\ j = 0 /\ m < 2
           /\ LET w == Nth(OpenW, i) IN (wr[w].n > 0 \/ LegalWrites(w) = {}) /\ GClose(w)
        \/ /\ k = 8 /\ j < 2 /\ AnyData
-          /\ (IF i < 2 THEN ~LastIs("reopen") /\ GReopen ELSE (LastIs("delete") \/ LastIs("reopen")) /\ GGC)
-       \/ /\ k \in {9, 10}
+          /\ (IF i < 2 THEN ~LastIs("reopen") /\ GReopen ELSE DeletesOn /\ (LastIs("delete") \/ LastIs("reopen")) /\ GGC)
+       \/ /\ k \in {9, 10} /\ DeletesOn
           /\ LET a == (j + 4 * (k - 9) + 2 * (i % 2)) % NT
                  b == a + m + (IF i > 1 THEN 4 ELSE 0)
                  cs == Nth(DeleteSets, i + j)
